@@ -162,6 +162,7 @@ def replay(scn, ui, python, cse=True, presentation=None, force_ekf=False):
     est = None
     kept = []        # results handed out earlier must not change when the model is used again
     kept_h = []
+    reused_state = None      # ONE State object overwritten in place from evaluation to evaluation
     stored = {}      # sensor key -> (innovation, S) as stored at its last update
     ghost = None
     if want_ekf and any(st["act"] == "Update" for st in scn["steps"]) and zlib.crc32(str(scn.get("_id", "")).encode()) % 3 == 0:
@@ -216,6 +217,13 @@ def replay(scn, ui, python, cse=True, presentation=None, force_ekf=False):
                     continue
                 if act == "ModelEval":
                     m = impl._state_model if want_ekf else impl
+                    # the model is a function of the VALUES it is given: ONE State object that the caller keeps and overwrites in
+                    # place between calls (a simulation loop) is evaluated first, a fresh object with the same values second
+                    if reused_state is None:
+                        reused_state = impl.State(**x)
+                    else:
+                        reused_state.data[:] = state.data
+                    out2 = m.model(dt, reused_state, control) if d.control else m.model(dt, reused_state)
                     if d.control:
                         out = m.model(dt, state, control)
                     else:
@@ -224,6 +232,9 @@ def replay(scn, ui, python, cse=True, presentation=None, force_ekf=False):
                     res.trace.append(obs)
                     res.values += cmp_vec(res.mismatches, "xn", i, obs, st["xn"], d.update, env)
                     kept.append((i, out, st, env))
+                    import numpy as np
+                    if not np.array_equal(out2.data, out.data, equal_nan=True):
+                        res.mismatches.append(Mismatch(step=i, what="xn-with-a-reused-state-object", name="model", expected=obs, observed=proj_vec(out2)))
                 else:
                     G = impl.process_jacobian(dt, state, control)
                     V = impl.control_jacobian(dt, state, control)
